@@ -162,7 +162,10 @@ def context_ops(r):
 def oracle_gen(ctx, r, what="moves"):
     """what = 'moves' (C01: move set) | 'succ' (C02/C13: move + successor position)"""
     op = r["op"]
-    if not op.startswith("gen "):
+    if op.startswith("gennull "):
+        # null-move clone: only the MOVES are judged (its key deliberately lacks the side term)
+        what = "moves"
+    elif not op.startswith("gen "):
         return
     if r["S"] == "-" or r["I"] == "panic":
         if r["I"] == "panic":
@@ -285,6 +288,10 @@ def movegen_ops(ctx, scale=1):
     # generated successors of check-giving castlings / line-uncovering en passant captures: the
     # reply generation from a board that CARRIES that move descriptor (evasions only)
     ops += C.genops("chkmoves", ctx.seed + 3, 1 if q else 1, "chk", "gen all", "gen cap")
+    # home-rook lattice: every capture of a corner rook by every piece from every square (corner to
+    # corner included, promotions included) and every king / rook move off a home square, then the
+    # generation from the generated successor
+    ops += C.genops("rights", 0, "fmt", "gen all", "gen cap")
     return ops
 
 
@@ -369,7 +376,17 @@ def check_C13(ctx, deep=False):
     q = ctx.quick
     ops = C.genops("cap", ctx.seed, (300 if q else 8000) * (4 if deep else 1), 40, 6)
     ops += movegen_ops(ctx)
-    run_and_compare(ctx, ops, [lambda c, r: oracle_gen(c, r, "succ") if r["op"] == "gen cap" else None, oracle_state])
+    # quiescence is also entered from NULL-MOVE boards (side flipped in memory, en passant target of
+    # the move before still set): capture-only generation there, after every ply of playouts that
+    # are rich in double steps, and after every special two-ply chain
+    nops = []
+    for o in C.genops("walk", ctx.seed + 5, 60 if q else 1500, 40, 0) + C.genops("pairs", 0, 1):
+        k = o.split(" ")[0]
+        if k in ("fen", "pick"):
+            nops += [o, "gennull cap", "gennull all"]
+    ops += nops
+    run_and_compare(ctx, ops, [lambda c, r: oracle_gen(c, r, "succ") if r["op"] == "gen cap" else None,
+                               lambda c, r: oracle_gen(c, r, "moves") if r["op"].startswith("gennull ") else None, oracle_state])
 
 
 def check_C04(ctx, deep=False):
@@ -417,6 +434,11 @@ def check_C05(ctx, deep=False):
     q = ctx.quick
     ops = C.genops("walk", ctx.seed, (100 if q else 3000) * (4 if deep else 1), 60, 3)
     ops += C.genops("cap", ctx.seed + 5, 100 if q else 3000, 30, 6)
+    # the special-move lattices: exhaustive two-ply chains, home-rook captures / departures, castling
+    # with every subset of rights left (a key term toggled for a right that is not held shows there)
+    ops += C.genops("pairs", 0, 2 if q else 1)
+    ops += C.genops("rights", 0, "gen all")
+    ops += C.genops("castlerights", 0, "gen all")
     res = run_and_compare(ctx, ops, [oracle_state, lambda c, r: oracle_gen(c, r, "succ") if r["op"].startswith("gen ") else None])
     keys_consistent(ctx, res)
 
